@@ -14,3 +14,12 @@ Theorem c10_known_kinds : forall e, known_env e -> forall progs, wf_progs progs 
 Proof. exact known_C10_final. Qed.
 Print Assumptions c10_known_kinds.
 
+
+(** the wrapper over an arbitrary iterator *)
+From OCI.proofs Require Import IterBase ChkIter IterQuiet.
+Theorem c10_wrapped_iterator : forall e, iter_env e -> forall progs, wf_progs progs -> forall sched,
+  nowrap (c_labels (exec e (init progs) sched)) ->
+  forall t k, n_pending (c_trace (exec e (init progs) sched)) = 0%Z ->
+  chk_C10 e (c_trace (final_step e (exec e (init progs) sched) t (FIntoSeq k))) = true.
+Proof. exact iter_C10_final. Qed.
+Print Assumptions c10_wrapped_iterator.
